@@ -5,8 +5,11 @@ import time
 from .sched import S
 from .common import gen_stalls, base_knobs, FL
 
-ARGS = [[], [], [0], [1, "x"], [None], [[1, 2]], [{"a": 1}], ["", 0.0, False], [["@tuple", 1, 2]], [3.5, [[]]]]
-KWARGS = [{}, {}, {"k": 1}, {"flag": False, "name": ""}, {"payload_": "x", "args": [1]}, {"self_": None}, {"flavour_": "trio"}]
+ARGS = [[], [], [0], [1, "x"], [None], [[1, 2]], [{"a": 1}], ["", 0.0, False], [["@tuple", 1, 2]], [3.5, [[]]], list(range(12)), [None, None]]
+# names that look like parameters of the runtime's own functions are ordinary keyword arguments too
+# ("self", "payload" and "flavour" are taken by adopt / execute themselves)
+KWARGS = [{}, {}, {"k": 1}, {"flag": False, "name": ""}, {"payload_": "x", "args": [1]}, {"self_": None}, {"flavour_": "trio"},
+          {"kwargs": {"a": 1}, "cls": None}, {"runner": 0, "loop": None, "target": "t", "daemon": True}, {"func": None, "keywords": {}}, {"timeout": 0, "value": None, "who": "x"}]
 
 
 def gen(seed, tier):
@@ -35,7 +38,7 @@ def gen(seed, tier):
             spec["args"] = rng.choice(ARGS)
             spec["kwargs"] = rng.choice(KWARGS)
             if rng.random() < 0.3:
-                spec["callable"] = rng.choice(["partial", "method", "instance", "unhashable-instance"] + (["lambda"] if fl != "threading" else []))
+                spec["callable"] = rng.choice(["partial", "partial-args", "method", "instance", "unhashable-instance"] + (["lambda"] if fl != "threading" else []))
             if rng.random() < 0.12:
                 # the same callable object adopted several times without arguments: that many payloads
                 spec["args"], spec["kwargs"], spec["times"] = [], {}, rng.choice([2, 3, 5])
